@@ -440,8 +440,18 @@ impl CommandAnalyzer {
 
     /// Recursively extract type names from complex types
     fn extract_type_names_recursive(&self, rust_type: &str, type_names: &mut HashSet<String>) {
+        // A type that is covered by a type mapping is written as its mapping: it is no type of the
+        // bindings, and nothing is reached (or ordered) through it
+        let mappings = self.type_resolver.get_type_mappings();
+        if mappings.contains_key(rust_type.trim()) {
+            return;
+        }
+
         // crate::models::User names the type User
         let rust_type = type_resolver::strip_module_path(rust_type.trim());
+        if mappings.contains_key(rust_type.as_ref() as &str) {
+            return;
+        }
 
         // Handle Result<T, E> - extract both T and E
         if rust_type.starts_with("Result<") {
